@@ -23,18 +23,31 @@ func RunDSL() error {
 	if len(roots) == 0 {
 		return nil
 	}
-	executed := 0
+	executed := make(map[string]struct{}, len(roots))
 	recursed := 0
-	for executed < len(roots) {
-		recursed++
-		start := executed
-		executed = len(roots)
-		for _, root := range roots[start:] {
+	for {
+		ran := false
+		for _, root := range roots {
+			if _, ok := executed[root.EvalName()]; ok {
+				continue
+			}
+			executed[root.EvalName()] = struct{}{}
 			root.WalkSets(runSet)
+			ran = true
 		}
+		if !ran {
+			break
+		}
+		recursed++
 		if recursed > 100 {
 			// Let's cross that bridge once we get there
 			return fmt.Errorf("too many generated roots, infinite loop?")
+		}
+		// The DSL that just ran may have registered additional roots: compute
+		// the list again so that they get executed (last) and then prepared,
+		// validated and finalized with the others.
+		if roots, err = Context.Roots(); err != nil {
+			return err
 		}
 	}
 	if Context.Errors != nil {
